@@ -528,3 +528,88 @@ def ob_b(ob):
                     ob.verdict(v, lab)
     x = z3.Real("x")
     expect_refuted(ob, 2 * x == x, [], "twin: a doubled eigenvalue term is noticed", "nra")
+
+
+def replay_unrolled(converger):
+    """public API, formaldehyde/AM1, scf_backward=2 with the given converger: d gap / d U_ss and d q(O) / d U_ss by
+    back-propagation through the SCF loop vs central finite differences"""
+    from seqm.Molecule import Molecule
+    from seqm.basics import Energy
+    from seqm.seqm_functions.constants import Constants
+    from .common import quiet
+
+    species, xyz = torch.tensor(_FORMALDEHYDE[0]), torch.tensor(_FORMALDEHYDE[1])
+    name = "U_ss"
+
+    def run(value, bw):
+        sp = {"method": "AM1", "scf_eps": 1e-10, "scf_converger": converger, "sp2": [False], "learned": [name] if value is not None else [], "scf_backward": bw, "eig": True}
+        with quiet():
+            mol = Molecule(Constants(), sp, xyz.clone(), species, learned_parameters=({name: value} if value is not None else {}))
+            mol.verbose = False
+            out = Energy(sp)(mol, learned_parameters=({name: value} if value is not None else {}), all_terms=True)
+        gap, P = out[6], out[8]
+        q = P.diagonal(dim1=1, dim2=2).reshape(1, -1, 4).sum(-1)
+        return torch.cat([gap.reshape(-1), q[0, :2].reshape(-1)])
+
+    base = None
+    with quiet():
+        m0 = Molecule(Constants(), {"method": "AM1", "scf_eps": 1e-10, "scf_converger": converger}, xyz.clone(), species)
+    base = m0.parameters[name].detach().clone()
+    v = base.clone().requires_grad_(True)
+    y = run(v, 2)
+    worst = 0.0
+    h = 1e-4
+    vp, vm = base.clone(), base.clone()
+    vp[0] += h
+    vm[0] -= h
+    fd = ((run(vp, 0) - run(vm, 0)) / (2 * h)).detach()
+    for k in range(y.numel()):
+        g = torch.autograd.grad(y[k], v, retain_graph=True, allow_unused=True)[0]
+        ad = 0.0 if g is None else g[0].item()
+        worst = max(worst, abs(ad - fd[k].item()))
+        print("replay unrolled backward (converger %s): output %d d/dU_ss[O] autograd %.8f vs FD %.8f" % (converger, k, ad, fd[k].item()))
+    return worst > 1e-5
+
+
+@obligation(PID, "g", title="unrolled back-propagation (scf_backward=2): through each SCF driver (fixed mixing, adaptive mixing, adaptive + Pulay/DIIS) the derivative carried by the returned density is the derivative of the self-consistent fixed point — no tensor on the value path is detached or written under no_grad (mixing heuristics kept off the tape on purpose do not change that limit)")
+def ob_g(ob):
+    from seqm.seqm_functions import scf_loop as SL
+    from . import scfsim as X
+
+    ob.encodes(SL.scf_forward0, SL.scf_forward1, SL.scf_forward2, SL.adaptive_mix)
+    ob.bound("one 4x4 model system; Fock build and density step replaced by a linear contraction whose fixed point and derivative are known in closed form (P* = (a 1 + c1 H)/(1 - c1 g), dP* = c1 dH/(1 - c1 g)); values concrete rationals, the direction dH of the Hamiltonian derivative symbolic (10 independent entries); 18 / 9 and 18 / 12 iterations")
+    ob.assume("engine grad model: dual-number tangents follow torch's tape, i.e. detach() and everything computed or stored under torch.no_grad() carry no tangent", "the extrapolation factor of adaptive mixing and the DIIS eigen-decomposition (both under no_grad in the code) are evaluated in floats", "tolerance 1e-6 on the derivative: the unrolled derivative converges geometrically (contraction 0.1 per iteration)")
+    tol = z3.RealVal("1e-6")
+    absz = lambda e: z3.If(e >= 0, e, -e)
+    # driver 1 is also stopped after 9 iterations: its extrapolation (every third iteration) is only active while successive
+    # iterates still differ in floating point, which in the contracting model ends after about 12 iterations
+    for drv, iters, conv in ((0, 18, [0, 0.3]), (1, 9, [1]), (1, 18, [1]), (2, 12, [2])):
+        tan, exact, val, fixed, H0 = X.unrolled_derivative(drv, iters)
+        n = tan.shape[0]
+        syms = [H0[i, j] for i in range(n) for j in range(i, n)]
+        for i in range(n):
+            for j in range(i, n):
+                vdev = z3.simplify(absz(val[i, j] - S.rv(fixed[i][j])))
+                ob.require(z3.is_true(z3.simplify(vdev <= z3.RealVal("1e-5"))), "model SCF (driver %d) did not reach its fixed point: P[%d,%d] off by %s" % (drv, i, j, vdev))
+                lab = "g:driver %d, %d iterations, dP[%d,%d]" % (drv, iters, i, j)
+                # |tangent - exact| <= tol * sum |dH| for every direction dH  (linear forms: decided coefficient by coefficient)
+                bad = None
+                for sy in syms:
+                    sub = [(x, z3.RealVal(1 if x is sy else 0)) for x in syms]
+                    d = z3.simplify(z3.substitute(tan[i, j] - exact[i, j], *sub))
+                    v, m = smt.prove(absz(d) <= tol, [], lab + " coefficient of %s" % sy, "lra", 20)
+                    if v != "unsat":
+                        bad = (sy, v)
+                        break
+                if bad is None:
+                    ob.discharged(lab)
+                    continue
+                if bad[1] != "sat":
+                    ob.inconclusive(lab)
+                    continue
+                if replay_unrolled(conv):
+                    ob.violation("SCF driver %d (scf_converger %s) under scf_backward=2: the derivative carried by the returned density is not the derivative of the self-consistent solution (a tensor on the value path is cut from the tape): gradients of gap, orbital energies, charges and all second derivatives are wrong" % (drv, conv), {"module": "harness.C07", "func": "replay_unrolled", "args": {"converger": conv}})
+                    return
+                raise HarnessError("unrolled-derivative counterexample did not reproduce (%s, coefficient of %s)" % (lab, bad[0]))
+    x = z3.Real("x")
+    expect_refuted(ob, absz(x - x * z3.RealVal("11/10")) <= tol, [x == 1], "twin: a 10 percent error in the derivative is noticed", "lra")
